@@ -25,8 +25,10 @@ Print Assumptions c08_lock_release_all_paths.
    protocols below / a stated join; none is under a lock (the list of exceptions is empty) *)
 Theorem c08_every_wait_classified :
   waits_classified wait_protocols lock_waits waits = true /\ table_used wait_protocols waits = true /\
-  forallb (wait_consistent all_cfgs) waits = true.
-Proof. exact (conj c08_waits_classified (conj c08_wait_table_used c08_waits_consistent)). Qed.
+  forallb (wait_consistent all_cfgs) waits = true /\
+  (* no lost wake-up: no bare cancellation waker, the required locked ones are there *)
+  forallb (cond_wakers_ok required_wakers) waits = true /\ wakers_table_used required_wakers waits = true.
+Proof. exact (conj c08_waits_classified (conj c08_wait_table_used (conj c08_waits_consistent c08_cond_wakers))). Qed.
 Print Assumptions c08_every_wait_classified.
 
 (* ======================= part B: bounded waits ======================= *)
@@ -175,6 +177,36 @@ Theorem c08_conn_close_refuted :
    result p = ONil /\ ret_at p = Some 3000).
 Proof. exact conn_close_refuted. Qed.
 Print Assumptions c08_conn_close_refuted.
+
+(* Conn.Close during an outage with failing redials.  Conn.reconnect holds wireConnMu for its
+   whole redial loop, whose only exit on a failed dial is the Closed status; Conn.Close swaps the
+   status to Closed BEFORE it asks for wireConnMu.  For every initial valuation of the status /
+   wire / dial flags and every later event list, the loop and Close have both returned ... *)
+Theorem c08_close_during_outage : forall fs evs, In fs (powerset outage_flags) ->
+  let w := run (init 60 fs [reconnectHold; connClose]) evs in
+  returned (nth 0 (procs w) dummy) = true /\ returned (nth 1 (procs w) dummy) = true.
+Proof. exact close_during_outage. Qed.
+Print Assumptions c08_close_during_outage.
+
+(* ... and with the two steps in the other order Close never returns while the redials fail
+   (it returns only if a dial succeeds): the order is what makes the loop end *)
+Theorem c08_close_lockfirst_refuted :
+  blocked_forever (init 60 [FStConnected] [reconnectHold; connClose_lockfirst]) 1 /\
+  blocked_forever (init 60 [FStReconnecting; FWClosed] [reconnectHold; connClose_lockfirst]) 1 /\
+  forallb returned (procs (run (init 60 [FStConnected] [reconnectHold; connClose_lockfirst]) [(ESet FDialOk true, 0%nat)])) = true /\
+  lwf fast_lock None reconnectHold = true /\ lwf fast_lock None connClose_lockfirst = true.
+Proof. exact close_lockfirst_refuted. Qed.
+Print Assumptions c08_close_lockfirst_refuted.
+
+(* Upstream.Close whose deadlines expire while its drain loop is inside sent.List / waiting for
+   u.mu (until tL): the wakers hold receivedAck.L around their Broadcast (static obligation
+   c08_cond_wakers), so the wake-up is delivered when Wait() releases the lock: bounded by
+   max(ctx, tL).  With a bare Broadcast the clock guards are no guards: that process is
+   upClose_barewake = upClose_F7, refuted below. *)
+Theorem c08_upclose_slow_wf : forall D d cto tL id, d <= D -> tL <= D ->
+  wf D None (upClose_slow (Some d) cto tL id) = true.
+Proof. exact wf_upClose_slow. Qed.
+Print Assumptions c08_upclose_slow_wf.
 
 (* F7 is repaired in /repo; the old drain loop stays refuted (regression guard for the model) *)
 Theorem c08_F7_old_refuted :
